@@ -215,7 +215,9 @@ def to_text(t, var_names):
     c = [to_text(x, var_names) for x in ch]
     name = {"neg": "-", "str.<": "str.<", "re.loop": None}.get(op, op)
     if op == "re.loop":
-        return f"((_ re.loop {par[0]} {par[1]}) {c[0]})"
+        # hi == 0 is the Z3 API's "no upper bound"; in SMT-LIB text that is the one-index form ((_ re.loop 2 0) would be the
+        # empty language, lo > hi)
+        return f"((_ re.loop {par[0]}) {c[0]})" if par[1] == 0 else f"((_ re.loop {par[0]} {par[1]}) {c[0]})"
     if not c:
         return op
     return "(" + name + " " + " ".join(c) + ")"
